@@ -13,6 +13,7 @@ package soymsg
 // expression).  The only place a node is given another node's name is the
 // equivNodeToRepNodes entry; it is made only after comparing the two String()s.
 //@ func setPlaceholderNames
+//@   at call append#0 assert[a-plural's-case-bodies-join-the-END-of-the-queue-(breadth-first,-as-the-official-numbering);C10] sameslice(arg0, nodeQueue)
 //@   props C13 C03 C10 C11
 //@   nosafety
 //@   modifies *
@@ -29,6 +30,7 @@ package soymsg
 //@   at call mapupdate#4 assert[suffixed-name-not-already-taken;C10,C11] !haskey(m, key)
 //@   at call mapupdate#5 assert[representative-gets-the-name-it-is-filed-under;C03,C10] haskey(nameToRepNodes, val) && nameToRepNodes[val] == key
 //@   at call mapupdate#6 assert[equivalent-node-gets-its-representative's-name;C03,C10] haskey(equivNodeToRepNodes, key) && (haskey(m, equivNodeToRepNodes[key]) ==> val == m[equivNodeToRepNodes[key]])
+//@   at call append#1 assert[a-base-name-is-listed-only-when-first-seen;C10] forall(k, 0, len(baseNames), !same(baseNames[k], baseName))
 //@   loop 0
 //@     noterm
 //@     invariant[base-names-are-the-map's-keys] forall(j, 0, len(baseNames), haskey(baseNameToRepNodes, baseNames[j]))
